@@ -361,6 +361,9 @@ fn main() {
             ma0: ma,
             ma_now: ma,
             fail_injected,
+            replaying: false,
+            floor: 0,
+            cp_floor: 0,
             last_allocated: 0,
             next_key: 0,
         };
